@@ -206,11 +206,79 @@ def check_fd0(res):
         sc.close()
 
 
+BYTES_NAMES = [b'caf\xe9', b'd\xff/x', b'd\xff/s/y', b'a', b'k/']
+BYTES_PATS = [b'*', b'caf\xe9', b'caf*', b'd\xff/*', b'*/x', b'**', b'd\xff/**', b'*/**', b'*/', b'd*/s/', b'k/**']
+
+
+def check_bytes_roots(res):
+    """Names that are not valid UTF-8, bytes patterns: the three ways of giving the root return the same well-formed paths
+    (every result names an existing entry, one trailing separator exactly under MARK / a trailing-slash pattern)."""
+    import tempfile
+    import shutil
+    root = tempfile.mkdtemp(prefix='vfc12b_', dir=bind.scratch_base())
+    broot = os.fsencode(root)
+    cwd = os.getcwd()
+    try:
+        for n in BYTES_NAMES:
+            full = os.path.join(broot, n)
+            if n.endswith(b'/'):
+                os.makedirs(full, exist_ok=True)
+            else:
+                os.makedirs(os.path.dirname(full), exist_ok=True)
+                open(full, 'w').close()
+        fd = os.open(root, os.O_RDONLY | os.O_DIRECTORY)
+        try:
+            for p in BYTES_PATS:
+                for fs in ('GE', 'GEK', 'GEO', 'GDE'):
+                    res.n['evaluations'] += 1
+                    res.n['distinct_nontrivial'] += 1
+                    fl = fscommon.gflags(fs)
+                    a = sorted(G.glob(p, flags=fl, root_dir=broot))
+                    b = sorted(G.glob(p, flags=fl, dir_fd=fd))
+                    os.chdir(root)
+                    try:
+                        c = sorted(G.glob(p, flags=fl))
+                    finally:
+                        os.chdir(cwd)
+                    inp = {'tree': [n.decode('latin-1') for n in BYTES_NAMES], 'patterns': p, 'flags': fs, 'layer': 'bytes-roots'}
+                    bad = None
+                    if not (a == b == c):
+                        bad = {'root_dir': a, 'dir_fd': b, 'cwd': c}
+                    else:
+                        for x in a:
+                            if not os.path.lexists(os.path.join(broot, x)) or x.endswith(b'//') or \
+                                    (x.endswith(b'/') and not os.path.isdir(os.path.join(broot, x))) or \
+                                    ('K' in fs and os.path.isdir(os.path.join(broot, x)) and not x.endswith(b'/')):
+                                bad = {'ill_formed': x, 'result': a}
+                                break
+                    res.outcomes.add('bytes-roots-ok' if bad is None else 'bytes-roots-bad')
+                    if bad is not None:
+                        res.add_violation(ID, run.viol('bytes-root-forms', inp, 'equal, well-formed', bad))
+        finally:
+            os.close(fd)
+        # an exclusion that matches nothing changes nothing - in particular not MARK or SCANDOTDIR
+        for p in ('*', '*/', '**', '.*', 'k/**'):
+            for fs in ('GEK', 'GEY', 'GEKY', 'GE', 'GEO'):
+                res.n['evaluations'] += 1
+                fl = fscommon.gflags(fs)
+                base = sorted(G.glob(p, flags=fl, root_dir=root))
+                ex = sorted(G.glob(p, flags=fl, root_dir=root, exclude='zz*'))
+                inl = sorted(G.glob([p, '!zz*'], flags=fl | G.NEGATE, root_dir=root))
+                if not (base == ex == inl):
+                    res.add_violation(ID, run.viol('neutral-exclusion-changes-result', {'tree': [n.decode('latin-1') for n in BYTES_NAMES], 'patterns': p,
+                                                                                        'flags': fs, 'layer': 'bytes-roots'},
+                                                   [os.fsdecode(os.fsencode(x)) for x in base], {'exclude=': ex, 'inline': inl}))
+    finally:
+        os.chdir(cwd)
+        shutil.rmtree(root, ignore_errors=True)
+
+
 def run_chunk(chunk):
     kind, descs, thin = chunk
     res = run.ChunkResult()
     if kind == 'fd0':
         check_fd0(res)
+        check_bytes_roots(res)
         return res
     sc = fsx.Scratch()
     try:
@@ -227,6 +295,10 @@ def replay(v):
     """Re-run the whole state in isolation (the scratch root path is part of absolute patterns, so cases are re-derived)."""
     inp = v['input']
     r = run.ChunkResult()
+    if inp.get('layer') == 'bytes-roots':
+        check_bytes_roots(r)
+        hit = [x for x in r.viol if x['kind'] == v['kind'] and x['input'] == run.jsonable(inp)]
+        return {'violates': bool(hit), 'observed': hit[0]['observed'] if hit else 'ok'}
     if v['kind'] == 'descriptor-zero':
         check_fd0(r)
         hit = [x for x in r.viol if x['input'] == run.jsonable(inp)]
